@@ -26,7 +26,7 @@ RULE = ("case = network template (T1 filter->SIMP->stiffness->LinSolve->complian
         "different designs and >=1 sensitivity.")
 ASSUMPTIONS = [
     "documented memories are excluded by construction: plain Scaling, damped AggScaling, writer counters",
-    "designs keep matrices in one class per template (symmetric FE matrices; dense symmetric/general per option)",
+    "designs keep matrices in one class per template (symmetric FE matrices; dense symmetric/general per option); the symmetry class is constant, the dtype need not be: linsolve_dtype alternates real and complex general (non-symmetric, non-Hermitian) matrices",
     "sparse EigenSolve (T2) is seeded on eigenvalues and on per-mode eigenvector functionals; eigenvector comparisons are "
     "skipped (label eig_close_skipped) when a returned eigenvalue is not separated (2e-2 relative) from the rest of the "
     "pencil's spectrum; the singular-factorisation raise of _sparse_eigvec_sens is the known finding recorded for C01",
@@ -61,7 +61,8 @@ def strategy(tier):
         "filter": st.sampled_from(["conv", "density"]), "multiload": st.sampled_from([0, 2, 3]),
         "nmodes": st.integers(1, 3), "gen": st.booleans(), "sigma": st.booleans(),
         "dir": st.integers(0, 5),
-        "dense": st.sampled_from(["linsolve_sym", "linsolve_gen", "inverse", "eig_sym", "linsolve_sym_mixed"]),
+        "dense": st.sampled_from(["linsolve_sym", "linsolve_gen", "inverse", "eig_sym", "linsolve_sym_mixed",
+                                  "linsolve_dtype"]),
         "fixK": st.booleans(),       # T2 (generalised): the stiffness matrix is a constant signal, only the mass depends on x
         "nonsym": st.booleans(),     # T4/T5: non-symmetric system matrix (AssembleGeneral with a non-symmetric element matrix)
         "agg": st.sampled_from(["pnorm", "ks", "soft"]), "agg_opt": st.sampled_from(["plain", "active", "undamped"]),
@@ -270,7 +271,7 @@ def build(case):
         import pymoto as pym
         n, k = 4, 3
         kind = o["dense"]
-        sym = kind != "linsolve_gen"   # (linsolve_sym_mixed rebuilds A0/Ai below)
+        sym = kind not in ("linsolve_gen", "linsolve_dtype")   # (linsolve_sym_mixed rebuilds A0/Ai below)
         A0 = rng.standard_normal((n, n))
         A0 = (A0 @ A0.T + n * np.eye(n)) if sym else (A0 + 3 * n * np.eye(n))
         Ai = [rng.standard_normal((n, n)) * 0.3 for _ in range(k)]
@@ -295,6 +296,17 @@ def build(case):
             sym = True
         x, A = S("x", designs[0].copy()), S("A")
         mods = [Mod(x, A, A0, Ai)]
+        if kind == "linsolve_dtype":
+            # the dtype of the system matrix depends on the design: real for designs 0 and 2, complex for 1 and 3
+            for j, dsg in enumerate(designs):
+                dsg[0] = -abs(dsg[0]) - 0.1 if j % 2 == 0 else abs(dsg[0]) + 0.1
+            x.state = designs[0].copy()
+            # general (neither symmetric nor Hermitian) matrices, real or complex: the symmetry flags that LinSolve and
+            # its LDAWrapper detect at the first response (and keep, like the hermitian=/symmetric= options) stay true;
+            # a real symmetric matrix turning complex would necessarily lose one of the two properties
+            Cd = rng.standard_normal((n, n)) * 0.3
+            mods = [_matfun_dtype()(x, A, A0, Ai, Cd)]
+            labels.append("matrix_dtype_changes")
         if kind.startswith("linsolve"):
             b, u = S("b", rng.standard_normal((n, 2))), S("u")
             mods.append(pym.LinSolve([A, b], u))
@@ -396,6 +408,33 @@ def _matfun():
             return np.array([np.real(np.sum(dA * a)) for a in self.Ai])
     _MATFUN.append(C03MatFun)
     return C03MatFun
+
+
+_MATFUNC = []
+
+
+def _matfun_dtype():
+    if _MATFUNC:
+        return _MATFUNC[0]
+    import pymoto as pym
+
+    class C03MatFunDtype(pym.Module):
+        """A(x) = A0 + sum_i x_i A_i + 1j max(x_0, 0) C: a REAL array for x_0 <= 0 (undamped), a complex one for x_0 > 0"""
+        def _prepare(self, A0, Ai, C):
+            self.A0, self.Ai, self.C = A0, Ai, C
+
+        def _response(self, x):
+            A = self.A0 + sum(xi * a for xi, a in zip(x, self.Ai))
+            self.damped = bool(x[0] > 0)
+            return A + 1j * x[0] * self.C if self.damped else A
+
+        def _sensitivity(self, dA):
+            g = np.array([np.real(np.sum(dA * a)) for a in self.Ai])
+            if self.damped:
+                g[0] += np.real(np.sum(dA * 1j * self.C))
+            return g
+    _MATFUNC.append(C03MatFunDtype)
+    return C03MatFunDtype
 
 
 def seed_value(case, net, j, w):
